@@ -113,6 +113,12 @@ func genC07(g *rand.Rand, tier string) any {
 		t.Timeout = time.Duration(1+g.IntN(3600)) * time.Second
 	}
 	p.Pos = g.IntN(3*(n+m) + 12)
+	if p.Ambig && g.IntN(2) == 0 {
+		// the window this transport behaviour matters in is the opening write
+		p.Pos = g.IntN(3)
+		p.Links[0].Cap = 0 // the open returns only once the server has taken it
+		p.Deadline = false
+	}
 	if g.IntN(2) == 0 {
 		// other calls on the connection (must be unaffected)
 		no := 1 + g.IntN(3)
@@ -322,6 +328,12 @@ func execC07(e *Env, pp any) {
 				// a message was returned
 				if invokedAfter {
 					e.Violate(prop, "message-after-cancel", site, "a RecvMsg invoked after the cancellation (event %d > %d) returned a message", lastCall, t)
+				} else if p.Target.Kind == KCStream && !completedInFlight && !(trailerWrittenEv != 0 && trailerWrittenEv < ev.N) {
+					// on a client-streaming call the one RecvMsg is the call's result (the
+					// generated CloseAndRecv): it hands the reply over with a nil error only
+					// for a call that completed, and this one was cancelled before the server
+					// had finished it
+					e.Violate(prop, "success-after-cancel", site, "the RecvMsg of a client-streaming call, pending when the call was cancelled (event %d) and with no final status from the server yet, returned the reply with a nil error: CloseAndRecv reports success for a cancelled call", t)
 				}
 				continue
 			}
@@ -430,6 +442,11 @@ func c07ServerSide(e *Env, p *C07Params, net *Net, tr *CallRec, rsite string, co
 	}
 	if opened && tr.HInvoked > 0 && !tr.HReturned {
 		e.Violate(prop, "handler-running", rsite, "the handler is still running after settle although its caller has gone\n%s", e.WaitGraph())
+		if rsite != "rst-write-blocked-by-pending-response" && tr.Returned {
+			// C14: the call has ended for its caller; the server still holds a stream,
+			// a handler goroutine and a context for it (known finding F05 has its own site)
+			e.Violate("C14", "server-registration-leak", "cancelled-stream."+rsite, "the caller's side of the cancelled call is released, the server still holds its stream and handler for the life of the connection")
+		}
 	}
 }
 
@@ -477,6 +494,6 @@ func callOfWireID(n *Net, id uint64) int {
 }
 
 func init() {
-	Register(&Family{Name: "c07.cancel", ShrinkKeys: []string{"others", "pos"}, Props: []string{"C07", "C06"}, New: func() any { return &C07Params{} }, Gen: genC07, Exec: execC07,
+	Register(&Family{Name: "c07.cancel", ShrinkKeys: []string{"others", "pos"}, Props: []string{"C07", "C06", "C14"}, New: func() any { return &C07Params{} }, Gen: genC07, Exec: execC07,
 		Faulty: true, FaultKinds: []string{"ctx.cancel", "ctx.deadline"}})
 }
